@@ -286,7 +286,7 @@ fn sim_panic(p: &Box<dyn std::any::Any + Send>) -> bool {
 
 pub fn map_roundtrip<K: SimK, V: SimV, const C1: usize, const C2: usize>(m: &Map<K, V, C1>, cx: &mut Cx<K, V>, cfg: &SerdeCfg, pre: &Snap) {
     let aw = cx.cfg.alloc_window && cfg.bincode;
-    let diag = cfg.truncate.is_some() || cfg.flip_bit.is_some() || cfg.ser_fail_at.is_some() || cfg.de_fail_at.is_some() || (!cfg.bincode && cfg.hint >= 2);
+    let diag = cfg.truncate.is_some() || cfg.flip_bit.is_some() || cfg.ser_fail_at.is_some() || cfg.de_fail_at.is_some() || cfg.dup_at.is_some() || (!cfg.bincode && cfg.hint >= 2);
     let len = pre.len();
     if len > C2 {
         return;
@@ -321,6 +321,17 @@ pub fn map_roundtrip<K: SimK, V: SimV, const C1: usize, const C2: usize>(m: &Map
                 buf[b / 8] ^= 1 << (b % 8);
             }
         }
+        if let Some(d) = cfg.dup_at {
+            // the entry is delivered twice: appended once more, announced length bumped
+            if len > 0 && end == n && n + 16 <= buf.len() {
+                let i = d as usize % len;
+                let (a, b) = (8 + 16 * i, 8 + 16 * i + 16);
+                buf.copy_within(a..b, n);
+                buf[..8].copy_from_slice(&(len as u64 + 1).to_le_bytes());
+                end = n + 16;
+                cx.probe("serde_entry_duplicated");
+            }
+        }
         let r = catch_unwind(AssertUnwindSafe(|| bincode::serde::decode_from_slice::<Map<K, V, C2>, _>(&buf[..end], bc)));
         decoded = match r {
             Ok(Ok((d, _))) => Ok(d),
@@ -350,6 +361,14 @@ pub fn map_roundtrip<K: SimK, V: SimV, const C1: usize, const C2: usize>(m: &Map
             if !ents.is_empty() {
                 let i = b as usize % ents.len();
                 ents[i].0 ^= 1 << (40 + (b % 4));
+            }
+        }
+        if let Some(d) = cfg.dup_at {
+            if !ents.is_empty() {
+                let e = ents[d as usize % ents.len()];
+                let at = (d as usize / 3) % (ents.len() + 1);
+                ents.insert(at, e);
+                cx.probe("serde_entry_duplicated");
             }
         }
         let mut de = TokDe { hint: hint_of(cfg.hint, ents.len()), entries: ents, pos: 0, pending_val: None, fail_at: cfg.de_fail_at };
@@ -388,7 +407,7 @@ pub fn map_roundtrip<K: SimK, V: SimV, const C1: usize, const C2: usize>(m: &Map
 
 pub fn set_roundtrip<K: SimK, V: SimV, const C1: usize, const C2: usize>(s: &Set<K, C1>, cx: &mut Cx<K, V>, cfg: &SerdeCfg, pre: &Snap) {
     let aw = cx.cfg.alloc_window && cfg.bincode;
-    let diag = cfg.truncate.is_some() || cfg.flip_bit.is_some() || cfg.ser_fail_at.is_some() || cfg.de_fail_at.is_some() || (!cfg.bincode && cfg.hint >= 2);
+    let diag = cfg.truncate.is_some() || cfg.flip_bit.is_some() || cfg.ser_fail_at.is_some() || cfg.de_fail_at.is_some() || cfg.dup_at.is_some() || (!cfg.bincode && cfg.hint >= 2);
     let len = pre.len();
     if len > C2 {
         return;
@@ -420,6 +439,16 @@ pub fn set_roundtrip<K: SimK, V: SimV, const C1: usize, const C2: usize>(s: &Set
                 buf[b / 8] ^= 1 << (b % 8);
             }
         }
+        if let Some(d) = cfg.dup_at {
+            if len > 0 && end == n && n + 8 <= buf.len() {
+                let i = d as usize % len;
+                let (a, b) = (8 + 8 * i, 8 + 8 * i + 8);
+                buf.copy_within(a..b, n);
+                buf[..8].copy_from_slice(&(len as u64 + 1).to_le_bytes());
+                end = n + 8;
+                cx.probe("serde_entry_duplicated");
+            }
+        }
         let r = catch_unwind(AssertUnwindSafe(|| bincode::serde::decode_from_slice::<Set<K, C2>, _>(&buf[..end], bc)));
         decoded = match r {
             Ok(Ok((d, _))) => Ok(d),
@@ -444,6 +473,14 @@ pub fn set_roundtrip<K: SimK, V: SimV, const C1: usize, const C2: usize>(s: &Set
         let mut ents = permute(ents, cfg.permute);
         if let Some(t) = cfg.truncate {
             ents.truncate(t as usize);
+        }
+        if let Some(d) = cfg.dup_at {
+            if !ents.is_empty() {
+                let e = ents[d as usize % ents.len()];
+                let at = (d as usize / 3) % (ents.len() + 1);
+                ents.insert(at, e);
+                cx.probe("serde_entry_duplicated");
+            }
         }
         let mut de = TokDe { hint: hint_of(cfg.hint, ents.len()), entries: ents, pos: 0, pending_val: None, fail_at: cfg.de_fail_at };
         let r = catch_unwind(AssertUnwindSafe(|| Set::<K, C2>::deserialize(&mut de)));
